@@ -447,6 +447,10 @@ def binop(x, st, op, a: V, b: V, node, inplace=False):
     if opn == "Mult" and ((a.k in ("strlist", "ref", "tuple") and b.k in ("int", "bool")) or
                           (b.k in ("strlist", "ref", "tuple") and a.k in ("int", "bool"))):
         return [(st, x.alloc(st, HList(None, "str" if "strlist" in (a.k, b.k) else "opq")))]
+    if x.mode == "frame" and opn in ("Add", "Sub") and {a.k, b.k} == {"int", "opq"}:
+        # integer arithmetic with an opaque operand (a counter that was havoc'ed): keep the relation
+        ia, ib = x.as_int(a), x.as_int(b)
+        return [(st, vint(ia + ib if opn == "Add" else ia - ib))]
     if opn in ("Sub", "Mult") and a.k in ("int", "bool") and b.k in ("int", "bool"):
         ia, ib = x.as_int(a), x.as_int(b)
         return [(st, vint(ia - ib if opn == "Sub" else ia * ib))]
